@@ -168,7 +168,7 @@ type Spec struct {
 	// Stop, when set, names helpers the analysis must treat as opaque.
 	Stop  func(fi *FuncInfo) bool
 	depth int
-	id      int
+	id    int
 }
 
 var specCounter int
@@ -447,10 +447,10 @@ type Events struct {
 	// EdgeGen adds events known on a branch edge (guards).
 	EdgeGen func(pkg *packages.Package, b *cfg.Block, i int, cond ast.Expr) []string
 	// Stop: callees that are not expanded (treated as opaque events).
-	Stop func(*types.Func) bool
-	Depth   int
-	memo    map[evKey]Facts
-	busy    map[evKey]bool
+	Stop  func(*types.Func) bool
+	Depth int
+	memo  map[evKey]Facts
+	busy  map[evKey]bool
 }
 
 type evKey struct {
@@ -611,7 +611,7 @@ type helperSummary struct {
 	all, onNil, onErr Facts // facts at all normal exits / only at `return nil` exits / only at error exits
 	errResult         bool
 	complete          bool // computed from at least one normal exit (not a recursion guard)
-	boolResult        bool  // the last result is a bool: facts per `return …, true` / `return …, false` exits
+	boolResult        bool // the last result is a bool: facts per `return …, true` / `return …, false` exits
 	onTrue, onFalse   Facts
 }
 
@@ -664,7 +664,7 @@ func (f *Flow) summarise(spec Spec, fi *FuncInfo, entry Facts) *helperSummary {
 		return acc
 	}
 	if !hs.errResult && sig.Results().Len() > 0 {
-		if b, ok := sig.Results().At(sig.Results().Len()-1).Type().Underlying().(*types.Basic); ok && b.Info()&types.IsBoolean != 0 {
+		if b, ok := sig.Results().At(sig.Results().Len() - 1).Type().Underlying().(*types.Basic); ok && b.Info()&types.IsBoolean != 0 {
 			hs.boolResult = true
 		}
 	}
@@ -821,12 +821,14 @@ func (f *Flow) applyHelpers(spec Spec, n ast.Node, cur Facts) Facts {
 			for k := range hs.onFalse {
 				cur["onfalse:"+key+"|"+k] = true
 			}
-			for k := range entry {
-				if !hs.onTrue[k] {
-					cur["ontrue:"+key+"|-"+k] = true
-				}
-				if !hs.onFalse[k] {
-					cur["onfalse:"+key+"|-"+k] = true
+			for _, src := range []Facts{entry, hs.all} {
+				for k := range src {
+					if !hs.onTrue[k] {
+						cur["ontrue:"+key+"|-"+k] = true
+					}
+					if !hs.onFalse[k] {
+						cur["onfalse:"+key+"|-"+k] = true
+					}
 				}
 			}
 		}
